@@ -143,12 +143,14 @@ func longScan() int {
 
 type slowCollector struct {
 	stats.NoopCollector
-	at string
+	at map[string]bool
 }
 
+// the window is longer than two status intervals, so that a tick falls into it even when the
+// machine is heavily loaded and one tick is delivered late
 func (c slowCollector) AfterInodeVisited(p string) {
-	if p == c.at {
-		time.Sleep(3200 * time.Millisecond)
+	if c.at[p] {
+		time.Sleep(4500 * time.Millisecond)
 	}
 }
 
@@ -162,7 +164,7 @@ func longScanSlowHook() int {
 	root := memfs.D("", kids...)
 	fast := &scankit.Ex{N: "fast", Req: scankit.ReqAlways}
 	cfg := &scalibr.ScanConfig{FilesystemExtractors: []filesystem.Extractor{fast}, Capabilities: &plugin.Capabilities{},
-		ScanRoots: []*scalibrfs.ScanRoot{{FS: memfs.New(root), Path: ""}}, Stats: slowCollector{at: "d25"}}
+		ScanRoots: []*scalibrfs.ScanRoot{{FS: memfs.New(root), Path: ""}}, Stats: slowCollector{at: map[string]bool{"d10": true, "d40": true}}}
 	res := scalibr.New().Scan(context.Background(), cfg)
 	if res.Status.Status != plugin.ScanStatusSucceeded {
 		fmt.Fprintln(os.Stderr, "long scan failed:", res.Status)
